@@ -137,6 +137,13 @@ def run_property(prop, tier, workdir, facts_cache):
         except Exception:
             extras = [{'name': 'extras', 'ok': False, 'violations': [('%s.extras|internal-error' % prop, traceback.format_exc()[-1500:])], 'obligations': 1, 'detail': 'crashed'}]
 
+    if tier == 'thorough' and getattr(mod, 'WITNESSES', None):
+        try:
+            import witness
+            extras.append(witness.check(workdir, mod.WITNESSES))
+        except Exception:
+            extras.append({'name': 'witnesses', 'ok': False, 'violations': [('%s.witness|internal-error' % prop, traceback.format_exc()[-1500:])], 'obligations': 1, 'detail': 'crashed'})
+
     known = [k for k in load_known() if k.get('property') == prop and k.get('status', 'open') == 'open']
     known_keys = {k['key']: k for k in known}
 
